@@ -12,7 +12,9 @@ use serde_json::{json, Value};
 
 pub fn cat_alphabet(thorough: bool) -> Vec<Value> {
     let mut v: Vec<Value> = ["null", "true", "false", "0", "-0.0", "1.0", "1.5", "1e21", "1e-7", "9223372036854775808", r#""""#, r#""a""#, r#""é😀""#,
-        "[]", "[null]", "[1,null,[2,[null,3]]]", r#"["a",{"b":1}]"#, "{}", r#"{"a":1}"#, "[[]]", "[true,false]", "-1", r#"" ""#]
+        "[]", "[null]", "[1,null,[2,[null,3]]]", r#"["a",{"b":1}]"#, "{}", r#"{"a":1}"#, "[[]]", "[true,false]", "-1", r#"" ""#,
+        // text that looks like the joiner's own output: separators at the ends of strings, arrays ending / starting with empty forms
+        r#""a,""#, r#"",""#, r#"",a""#, "[1,null]", "[null,null]", "[null,1]", r#"["",""]"#, "[[],[]]"]
         .iter()
         .map(|s| al::parse(s))
         .collect();
